@@ -4,6 +4,7 @@ import EsbuildModel.Impl.ToInt32
 import EsbuildModel.Impl.Compat
 import EsbuildModel.Impl.DataUrl
 import EsbuildModel.Impl.Quote
+import EsbuildModel.Impl.Exports
 
 open EsbuildModel
 
@@ -15,6 +16,7 @@ def dispatch (kernel : String) (args : List String) : String :=
   | "compat" => Compat.driver args
   | "dataurl" => DataUrl.driver args
   | "quote" => Quote.driver args
+  | "exports" => Exports.driver args
   | _ => "bad-kernel"
 
 partial def loop (hin hout : IO.FS.Stream) : IO Unit := do
